@@ -15,7 +15,8 @@ def tasks(tier, seed):
                 if j == 0:
                     ts.append({"kind": "fam", "fam": fam, "lo": seed * 7, "count": exh})
                 continue
-            ts.append({"kind": "fam", "fam": fam, "lo": seed * 100000 + j * n, "count": n})
+            m = n * 3 if fam == "nfa2dfa" else n        # name-sensitive checker: more instances (cheap ones)
+            ts.append({"kind": "fam", "fam": fam, "lo": seed * 100000 + j * m, "count": m})
     return gen.spread(ts, hs)
 
 
